@@ -27,6 +27,8 @@ THEOREMS = [
     "AsynqModel.Decorators.C09_convert",
     "AsynqModel.Decorators.C09_dedup_own_body",
     "AsynqModel.Decorators.C09_proxy_pure",
+    "AsynqModel.Decorators.C09_truthiness_history_irrelevant",
+    "AsynqModel.Decorators.C09_receiver_per_access",
     "AsynqModel.Decorators.C09_spec_holds",
 ]
 BUILDS = {"quick": ["py"], "thorough": ["py", "cy"]}
@@ -40,7 +42,7 @@ RULE = ("exhaustive product: 12 decorator kinds (undecorated, asynq, asynq pure,
         "11 fixed argument patterns (positional, keyword, default, keyword-only, extra, 4 malformed), then seeded random "
         "argument lists; every cell runs 10 calling conventions (sync call, .asynq().value(), yield .asynq() from a task, "
         "sync call inside a task, yield async_call.asynq, async_call(), get_async_fn, get_async_or_sync_fn, "
-        "get_async_fn(wrap_if_none=True), .asynq() with a same-named twin in flight) + the 5 classification helpers; non-trivial = a body was entered by at least two "
+        "get_async_fn(wrap_if_none=True), .asynq() with a same-named twin in flight) + the 5 classification helpers; every class-bound cell is run again with FALSY instances and classes and after look-ups of the same attribute through the other access paths (base then subclass, subclass then base, instances in between); non-trivial = a body was entered by at least two "
         "conventions with a receiver or at least one argument; distinct by hash of the cell")
 TRUSTED = [
     "hand-written Lean model AsynqModel.Lib.Decorators (objects built by qcore.decorators.DecoratorBase.__init__/__get__, "
@@ -124,11 +126,36 @@ def corpus():
     return res
 
 
+REDUCED = (0, 5, 7)   # indices into PATTERNS used for the truthiness / access-history variants
+
+
+def variants(tier, acc):
+    """(falsy, pre) variants of a cell beyond the basic one: instances AND classes that are falsy (`__len__` -> 0 on
+    instances, `__bool__` -> False on the metaclass), and look-ups of the same decorated attribute through the other
+    access paths BEFORE the observed one (anything `__get__` remembers between accesses becomes observable)"""
+    if acc == "direct":
+        return []
+    others = [a for a in ACCS if a != acc]
+    res = [(1, []), (0, others), (1, list(reversed(others)))]
+    if tier != "quick":
+        res += [(0, [a]) for a in others] + [(0, list(reversed(others))), (1, others)]
+    return res
+
+
 def plan(tier, seed):
     rng = random.Random(seed * 1000003 + 9)
     cases = corpus()
     nrand = 2 if tier == "quick" else 30
     for kind, ft, acc in cells():
+        for falsy, pre in variants(tier, acc):
+            for body in BODIES:
+                if kind == "raw" and body != "plain":
+                    continue
+                for sig in SIGS:
+                    args = [PATTERNS[i] for i in REDUCED] + [gen_args(rng)]
+                    for pos, kw in args:
+                        cases.append(dict(kind=kind, ft=ft, acc=acc, body=body, raises=0, sig=sig, pos=list(pos),
+                                          kw=[list(x) for x in kw], falsy=falsy, pre=list(pre)))
         for body in BODIES:
             if kind == "raw" and body != "plain":
                 continue  # an undecorated function is ordinary synchronous code
@@ -157,6 +184,11 @@ def shrink(case):
         yield dict(case, raises=0)
     if case["sig"] != "var":
         yield dict(case, sig="var")
+    pre = case.get("pre", [])
+    for i in range(len(pre)):
+        yield dict(case, pre=pre[:i] + pre[i + 1:])
+    if case.get("falsy"):
+        yield dict(case, falsy=0)
 
 
 def neighbours(case, rng):
@@ -166,6 +198,10 @@ def neighbours(case, rng):
                 yield dict(case, body=body, sig=sig, raises=raises)
     for acc in ACCS:
         yield dict(case, acc=acc)
+    if case["acc"] != "direct":
+        for falsy in (0, 1):
+            for a in ACCS:
+                yield dict(case, falsy=falsy, pre=[a])
     for _ in range(16):
         pos, kw = gen_args(rng)
         yield dict(case, pos=pos, kw=kw)
@@ -173,7 +209,12 @@ def neighbours(case, rng):
 
 def signature(case, v):
     # WHAT fails: the cell of the table and the clause (convention/helper), not the argument values
-    return "%s/%s/%s/%s" % (case["kind"], case["ft"], case["acc"], v["spec"])
+    sig = "%s/%s/%s/%s" % (case["kind"], case["ft"], case["acc"], v["spec"])
+    if case.get("falsy"):
+        sig += "/falsy-receiver"
+    if case.get("pre"):
+        sig += "/after-" + "-".join(case["pre"])
+    return sig
 
 
 # ---------------------------------------------------------------------------------------------------
@@ -339,9 +380,21 @@ class World(object):
         dec = self._decorate(lib, f, sf, ft, "target")
         if acc == "direct":
             return {"fn": dec}
-        Base = type("Base", (object,), {"target": dec})
-        Sub = type("Sub", (Base,), {})
-        return {"Base": Base, "Sub": Sub, "inst": Base(), "subinst": Sub()}
+        if case.get("falsy"):
+            # receivers that are FALSY: empty-container-like instances, classes whose metaclass says False
+            meta = type("Meta", (type,), {"__bool__": lambda cls: False})
+            Base = meta("Base", (object,), {"target": dec, "__len__": lambda self: 0})
+            Sub = meta("Sub", (Base,), {})
+        else:
+            Base = type("Base", (object,), {"target": dec})
+            Sub = type("Sub", (Base,), {})
+        h = {"Base": Base, "Sub": Sub, "inst": Base(), "subinst": Sub()}
+        if not twin:
+            # earlier look-ups of the same attribute through other access paths (results kept alive, never called)
+            for a in case.get("pre", []):
+                holder = {"inst": h["inst"], "cls": Base, "subInst": h["subinst"], "subCls": Sub}[a]
+                self.keep.append(holder.target)
+        return h
 
     def access(self, twin=False):
         h = self.twin if twin else self.own
@@ -546,9 +599,10 @@ def run_case(case):
 
     lib = {"asynq": asynq, "decorators": decorators, "tools": tools, "DebugBatchItem": DebugBatchItem,
            "FutureBase": FutureBase}
-    lines = ["(case decorators %d %s %s %s %s %d %s (%s) (%s))" % (
+    lines = ["(case decorators %d %s %s %s %s %d %s (%s) (%s) %d (%s))" % (
         case["id"], case["kind"], case["ft"], case["acc"], case["body"], case["raises"], case["sig"],
-        " ".join(str(x) for x in case["pos"]), " ".join("(%d %d)" % (n, v) for n, v in case["kw"]))]
+        " ".join(str(x) for x in case["pos"]), " ".join("(%d %d)" % (n, v) for n, v in case["kw"]),
+        1 if case.get("falsy") else 0, " ".join(case.get("pre", [])))]
     entered = 0
     for conv in CONVS:
         entries, out, flag, ent = _convention(case, lib, conv)
@@ -562,7 +616,8 @@ def run_case(case):
     lines.append("(end)")
     feats = ["kind=" + case["kind"], "bind=%s/%s" % (case["ft"], case["acc"]), "body=" + case["body"],
              "raises=%d" % case["raises"], "sig=" + case["sig"], "npos=%d" % min(len(case["pos"]), 4),
-             "nkw=%d" % min(len(case["kw"]), 4)]
+             "nkw=%d" % min(len(case["kw"]), 4), "falsy=%d" % (1 if case.get("falsy") else 0),
+             "prior-accesses=%d" % len(case.get("pre", []))]
     nontrivial = None
     if entered >= 2:
         nontrivial = hashlib.sha1(json.dumps({k: v for k, v in case.items() if k != "id"}, sort_keys=True).encode()).hexdigest()[:16]
